@@ -4,7 +4,8 @@ Workload (lib/c06_progs.py): generated probabilistic functions — plain functio
 using ``dist.sample`` / ``dist(...)``, lax.scan / lax.cond / modular_vmap, GFI
 methods (simulate / assess / generate / update / regenerate) of generated @gen
 models with Scan / Cond / Vmap / nested calls, keyword arguments, Python-scalar
-vs array arguments, a user-bound ``sample_binder`` sampler.
+vs array arguments, typed and legacy uint32 keys, a user-bound ``sample_binder``
+sampler (the pattern of the pjax module docstring).
 
 Per program, between two evaluations of ``seed(f)(key, *args)`` a *perturbing
 history* is executed (unseeded draws, other seeded programs, other keys, the
@@ -53,19 +54,19 @@ ASSUMPTIONS = [
 ]
 FLOORS = {
     "quick": {
-        "programs": 58,
-        "repeat_checks": 380,
-        "history_runs": 170,
-        "fresh_closure_checks": 140,
-        "other_avals_checks": 50,
-        "transform_lane_checks": 900,
-        "distinct_key_leaf_checks": 220,
-        "subkey_log_checks": 380,
-        "subkeys_logged": 2000,
-        "stack_checks": 1500,
-        "counter_checks": 500,
-        "fault_injections": 75,
-        "thunk_probes": 75,
+        "programs": 50,
+        "repeat_checks": 330,
+        "history_runs": 150,
+        "fresh_closure_checks": 120,
+        "other_avals_checks": 40,
+        "transform_lane_checks": 600,
+        "distinct_key_leaf_checks": 200,
+        "subkey_log_checks": 330,
+        "subkeys_logged": 1800,
+        "stack_checks": 1300,
+        "counter_checks": 450,
+        "fault_injections": 66,
+        "thunk_probes": 66,
     },
     "thorough": {
         "programs": 380,
@@ -83,7 +84,7 @@ FLOORS = {
         "thunk_probes": 600,
     },
 }
-TIMEOUT_S = {"quick": 1800, "thorough": 5400}  # watchdog only (shared, loaded machine); budget is ~2 / ~12 min
+TIMEOUT_S = {"quick": 2700, "thorough": 7200}  # watchdog only (shared, loaded machine); budget is ~2 / ~12 min
 
 NKEYS = 8
 ULPS_C = 16  # continuous leaves, scaled by max(1, |leaf|max)
@@ -103,7 +104,7 @@ NONFAULT = [
 # plan
 # ---------------------------------------------------------------------------
 def plan(tier, seed):
-    nprog = 60 if tier == "quick" else 380
+    nprog = 52 if tier == "quick" else 380
     nbinder = 4 if tier == "quick" else 20
     if os.environ.get("VERIF_C06_NPROG"):  # development aid: a smaller plan (floors will then be missed)
         nprog = int(os.environ["VERIF_C06_NPROG"])
@@ -831,10 +832,12 @@ def _run_program(case, ctx):
         return ev
 
     vf = jax.vmap(lambda k: sf_held(k, *a, **kw))
-    if cheap or thorough or case.get("index", 0) % 3 == 0:
+    if thorough or case.get("index", 0) % 3 == 0:
         ev_v = batched("vmap", vf)
     else:
-        ev_v = None  # op-by-op batched evaluation of a program with control flow: one in three in the quick tier
+        # op-by-op batched evaluation runs the same genjax code as jit(vmap) does while tracing: one program
+        # in three in the quick tier
+        ev_v = None
         ctx.count("eager_vmap_skipped_for_cost")
     ev_jv = batched("jit(vmap)", jax.jit(vf))
     ref = jevs
